@@ -3,7 +3,8 @@
     rt <value>          encode then decode a value                 obs ok | err <kind>       detail: bytes
     dec <hex>           decode hostile bytes (impl: child process)  obs ok <value> | err <kind> | ALLOC | DEEP
     nest <n> <hex>      the same on  (07 01 00 00 00)^n ++ hex
-    wrt <record>        encode_body then decode_body                obs ok | err <class>      detail: body digest
+    wrt <record>        encode_body then decode_body                obs ok | refused | lost | mismatch
+    depth <value>       PropertyValue::nesting_depth                obs ok <n>
     wdec <hex>          decode_body on hostile bytes                obs ok <record> | err <msg> | PANIC | ALLOC | DEEP
     crc <hex>, utf8 <hex>   checksum / UTF-8 validity (trusted links, validated here)
 -/
@@ -62,6 +63,8 @@ def step (_ : Unit) (ws : List String) : Unit × String × String × String :=
       let (m, s) := decLine bs; ((), m, s, "")
     | _, _ => ((), "bad-op", "-", "")
   | ["wrt", tok] =>
+    -- obs: ok (read back exactly) | refused (encode_body returned Err: nothing is logged) |
+    --      lost (encode_body accepted it, decode_body does not read it back) | mismatch
     match parseRec tok with
     | some r =>
       if !r.wf then ((), "bad-op", "-", "") else
@@ -70,13 +73,21 @@ def step (_ : Unit) (ws : List String) : Unit × String × String × String :=
         | .setNodeProperty _ _ v => fits cfg.pv v.nesting
         | .setEdgeProperty _ _ _ _ v => fits cfg.pv v.nesting
         | _ => true
-      let spec := if okv then "ok" else "-"
+      -- whatever encode_body accepts must decode back; what the decoder could not read must be refused
+      let spec := if okv && r.fitsWire cfg then "ok" else "ok/refused"
       match encodeBody cfg r with
-      | .error e => ((), showWErr e, spec, "")
+      | .error .panic => ((), "PANIC", spec, "")
+      | .error e => ((), "refused | " ++ showWErr e, spec, "")
       | .ok body =>
         match decodeBody cfg body with
         | .ok r' => ((), (if r' = r then "ok" else "mismatch") ++ " | " ++ digest body, spec, "")
-        | .error e => ((), showWErr e ++ " | " ++ digest body, spec, "")
+        | .error e => ((), "lost | " ++ showWErr e ++ " " ++ digest body, spec, "")
+    | none => ((), "bad-op", "-", "")
+  | ["depth", tok] =>
+    -- PropertyValue::nesting_depth, the measure of encode_body's guard: containers nested inside each other,
+    -- an EMPTY container counts (`[]` is 1)
+    match parseVal tok with
+    | some v => ((), s!"ok {v.nesting}", s!"ok {v.nesting}", "")
     | none => ((), "bad-op", "-", "")
   | ["wdec", h] =>
     match bytesOfHex h with
